@@ -9,6 +9,8 @@ open IV IV.Proto IV.CleanLine
   ipv4  s | mac s | host d s                → findall results  (`=enc` items; mac items carry `!` when ignored)
   pw    s                                   → Password.parse_line
   rx    pat s                               → 0/1
+        (a pattern: `P<enc>` plain | `R<a><e>:<atoms>` modelled family | `X=line/=line…` extensional: the lines on
+         which the expression taken by itself matches)
   kwdb  keywords                            → `=k>v` items
   clean mode flags fqdn noObf pats keywords allow ipT hostT macT ip6T maxLen line…
         mode L (list) | S (single string) | P (spec written by a provider; `empty` = ContentException); flags = obfuscate obfHost obfMac obfIpv6 noRedact width
@@ -72,11 +74,19 @@ def decPat (f : String) : Option Pat :=
     | _, _ => none
   | _ => none
 
-def decPats (f : String) : Option (List Pat) := (items f).mapM decPat
+def decPatX (f : String) : Option Pat :=
+  match f.toList with
+  | 'X' :: r =>
+    let body := String.ofList r
+    (if body = "" then some [] else (body.splitOn "/").mapM decItem).map Pat.ext
+  | _ => decPat f
+
+def decPats (f : String) : Option (List Pat) := (items f).mapM decPatX
 
 def patDomain : Pat → Bool
   | .plain k => inDomain k
   | .regex r => r.atoms.all (fun a => match a.cls with | .lit c => inDomain [c] | _ => true)
+  | .ext hits => hits.all inDomain
 
 def decLine (f : String) : Option (Str × List Str) :=
   match (f.splitOn "/").mapM decItem with
